@@ -18,12 +18,16 @@ THEOREMS = [
     "GoaktVerif.C46.zipEmit_spec",
     "GoaktVerif.C46.zip_correct",
     "GoaktVerif.C46.C46_holds",
+    "GoaktVerif.C46.merge_composed",
+    "GoaktVerif.C46.concat_composed",
+    "GoaktVerif.C46.zip_composed",
+    "GoaktVerif.C46.C46_composed_holds",
 ]
 INPKG = ["stream/zz_verif_c45.go", "stream/zz_verif_c46.go"]
 TIMEOUT = 900
 MANIFEST = {
-    "level_text": "Kernel-checked theorems on state-machine models of the junction actors, each for EVERY sequence of messages after the stageWire (any demand pattern, any arrival order, completion at any time): Merge and Concat forward sub-values in arrival order and complete only after everything that arrived was sent, and a completed Merge output is an interleaving (inductive predicate Interleave) of the per-source arrival sequences (merge_correct, concat_correct, interleave_projs); the Broadcast hub sends every element to every branch in order (broadcast_correct); the Partition hub sends branch i exactly the elements whose selector is i (partition_correct); the Balance hub (after fix 61853f2: elements that find no demand are buffered) sends, for every message sequence including slot cancellations, each handled element to exactly one branch in arrival order, and tells the branches streamComplete only after everything was sent, at which point the input is an interleaving of the branch sequences (BlInv.step, balance_correct). Zip pairs positionally for every message sequence (zip_correct: the i-th components of the tuples sent, followed by slot i's buffer, are slot i's arrivals in order); Broadcast and Partition also with slot cancellation anywhere (a live branch has everything, a cancelled one a prefix). All clauses together: C46_holds. The judge's interleaving decision procedure is certificate producing and the certificate check is proved sound (checkWitness_sound, isInterleaving_sound).",
-    "level_note": "Partial: the Concat theorem is about arrival order (that arrivals come source by source follows from sub-source i+1 being materialized only after sub-source i reported done, which is in the model's step function but not composed with sub-pipeline models); sub-pipelines, slot actors and sinks are not composed into one network theorem (slot actors are pure relays, tied by replay). Trusted: Lean kernel; the differential (per-actor message replay of the real junction actors between probe actors; end-to-end runs of the real junctions judged by Spec.C46).",
+    "level_text": "C46_composed_holds: a Merge / Concat / Zip whose slots are fed by whole sub-pipelines (C45 networks, any stages without the unordered ParallelMap, both fusion modes, EVERY schedule of every sub-pipeline, every junction message order): the elements the junction emits from branch i are, in order, a prefix of the list semantics of sub-pipeline i (Zip: the i-th tuple components), and a Merge completing after all sub-pipelines completed emits an interleaving of those list semantics - C45_holds composed with the junction clauses through the forwarding link FedBy. Kernel-checked theorems on state-machine models of the junction actors, each for EVERY sequence of messages after the stageWire (any demand pattern, any arrival order, completion at any time): Merge and Concat forward sub-values in arrival order and complete only after everything that arrived was sent, and a completed Merge output is an interleaving (inductive predicate Interleave) of the per-source arrival sequences (merge_correct, concat_correct, interleave_projs); the Broadcast hub sends every element to every branch in order (broadcast_correct); the Partition hub sends branch i exactly the elements whose selector is i (partition_correct); the Balance hub (after fix 61853f2: elements that find no demand are buffered) sends, for every message sequence including slot cancellations, each handled element to exactly one branch in arrival order, and tells the branches streamComplete only after everything was sent, at which point the input is an interleaving of the branch sequences (BlInv.step, balance_correct). Zip pairs positionally for every message sequence (zip_correct: the i-th components of the tuples sent, followed by slot i's buffer, are slot i's arrivals in order); Broadcast and Partition also with slot cancellation anywhere (a live branch has everything, a cancelled one a prefix). All clauses together: C46_holds. The judge's interleaving decision procedure is certificate producing and the certificate check is proved sound (checkWitness_sound, isInterleaving_sound).",
+    "level_note": "Partial: the Concat theorem is about arrival order (that arrivals come source by source follows from sub-source i+1 being materialized only after sub-source i reported done, which is in the model's step function but not composed with sub-pipeline models); the composed fan-in theorem takes the forwarding link between a sub-pipeline's internal sink and the junction as hypothesis FedBy (what slot i handed over is a prefix of what sink i consumed: per-sender FIFO of the actor runtime, see C05/C08), it is not one interleaved network of all actors; fan-out hubs with downstream sub-pipelines and slot actors are not composed (slot actors are pure relays, tied by replay). Trusted: Lean kernel; the differential (per-actor message replay of the real junction actors between probe actors; end-to-end runs of the real junctions judged by Spec.C46).",
     "technique": "Lean 4 proof (invariants over every message order) on hand-written junction-actor models, tied to the Go code by deterministic per-actor message replay and end-to-end runs judged by a certificate-producing interleaving checker",
 }
 TRUSTED = [
